@@ -25,7 +25,7 @@ package otp
 //@              sha512(val(vals, "GetPassword")) == b64std_dec(otp_entry(OTPs(u), m)))
 //@   -- C12/C02: the matched one-time password is consumed (saved) before any login event is
 //@   -- fired - the 2FA hijack may park the login and another handler completes it later
-//@   ensures[C12,C02] consumed_before_events: each Fire("Before", _, _, _, _) => before Store.Save(_) -> ?e :: e == nil
+//@   ensures[C12,C02,C04,C03] consumed_before_events: each Fire("Before", _, _, _, _) => before Store.Save(_) -> ?e :: e == nil
 //@   ensures[C01] halfauth_cleared: each Sess.Put("uid", _) => after Sess.Del("halfauth")
 //@   ensures[C01] only_uid: each Sess.Put(?k, _) => k == "uid"
 //@   ensures[C02] hijack_fired: each Sess.Put("uid", ?v) =>
